@@ -179,7 +179,7 @@ HELPERS = [
                           && T::decode(buf@.subrange(0, T::spec_size() as int)).valid_spec()), // [C05]
             r is Ok ==> r->Ok_0 == T::decode(buf@.subrange(0, T::spec_size() as int)), // [C02]""")),
     ("update_reply_ack_flag", dict(contract="""
-        ensures srv_inv(*final(self)), // [C04]
+        ensures srv_inv(*final(self)), // [C04,C03] the cached flag IS the negotiated condition (offered PROTOCOL_FEATURES and acknowledged REPLY_ACK)
             final(self).virtio_features == old(self).virtio_features, final(self).acked_virtio_features == old(self).acked_virtio_features,
             final(self).acked_protocol_features == old(self).acked_protocol_features, final(self).error == old(self).error,
             final(self).backend == old(self).backend, final(self).main_sock == old(self).main_sock""")),
@@ -193,7 +193,7 @@ HELPERS = [
         requires srv_inv(*old(self)), old(self).error is None, hdr_valid_spec(*req), !old(self).main_sock.io_failed@
         ensures
             final(self).backend == old(self).backend, neg_unchanged(*old(self), *final(self)), rx_same(*old(self), *final(self)),
-            ack_rule(*old(self), *final(self), *req, res is Ok), // [C04]
+            ack_rule(*old(self), *final(self), *req, res is Ok), // [C04,C03]
             res is Err ==> r is Err, // [C03]
             !final(self).main_sock.io_failed@ ==> (r is Ok) == (res is Ok), // [C03]""")),
     ("send_reply_message", dict(contract="""
@@ -342,7 +342,7 @@ def arm_contract_ack(code, gate, valid, call, neg, early="true"):
             (%(gate)s && %(early)s && !(%(valid)s)) ==> r is Err && final(self).backend == old(self).backend
                 && ack_rule(*old(self), *final(self), hdr, false), // [C05,C04]
             (%(gate)s && %(early)s && %(valid)s) ==> called(*old(self), *final(self), %(call)s), // [C02,C09]
-            (%(gate)s && %(early)s && %(valid)s) ==> ack_rule(*old(self), *final(self), hdr, ret_ok(*final(self))), // [C04]
+            (%(gate)s && %(early)s && %(valid)s) ==> ack_rule(*old(self), *final(self), hdr, ret_ok(*final(self))), // [C04,C03]
             (%(gate)s && %(early)s && %(valid)s) ==> res_rule(*final(self), r, ret_ok(*final(self))), // [C03]
 """ % dict(code=code, gate=gate, valid=valid, call=call, same=NEG_SAME, early=early)
     return """
@@ -352,7 +352,7 @@ def arm_contract_ack(code, gate, valid, call, neg, early="true"):
             !(%(gate)s) ==> r is Err && nothing_done(*old(self), *final(self)) && %(same)s, // [C07]
             !(%(valid)s) ==> r is Err && nothing_done(*old(self), *final(self)) && %(same)s, // [C05]
             (%(gate)s && %(valid)s) ==> called(*old(self), *final(self), %(call)s), // [C02,C09]
-            (%(gate)s && %(valid)s) ==> ack_rule(*old(self), *final(self), hdr, ret_ok(*final(self))), // [C04]
+            (%(gate)s && %(valid)s) ==> ack_rule(*old(self), *final(self), hdr, ret_ok(*final(self))), // [C04,C03]
             (%(gate)s && %(valid)s) ==> res_rule(*final(self), r, ret_ok(*final(self))), // [C03]
             (%(gate)s && %(valid)s) ==> %(neg)s && final(self).error == old(self).error, // [C04,C07]
 """ % dict(code=code, gate=gate, valid=valid, call=call, neg=neg_ok, same=NEG_SAME)
